@@ -75,12 +75,29 @@ func stallScenarios(c *Ctx) []e1Spec {
 			specs = append(specs, s)
 		}
 	}
+	// spin-then-park designs: the waiters have used up a small spin budget (2^16 polls) and sit in
+	// whatever they do next, while ALL interleavings of the others are explored, with a block that
+	// fails after its hand-off, with a failing shared read, and fault-free
+	for _, ws := range [][]int{{3}, {2, 3}} {
+		mode, budget := pick(c, "cache", "sleep"), pick(c, int64(1)<<13, int64(1)<<16)
+		s := decSpec(fmt.Sprintf("dec j3 4blk+tail block 1 fails after hand-off, waiters %v past their spin budget", ws), 3, 4, 100, mode, -1)
+		s.CorruptBlock, s.CorruptKind = 1, "payload"
+		s.StallThreads, s.StallPolls = ws, budget
+		specs = append(specs, s)
+		s = decSpec(fmt.Sprintf("dec j3 3blk+tail valid, waiters %v past their spin budget", ws), 3, 3, 100, mode, -1)
+		s.StallThreads, s.StallPolls = ws, budget
+		specs = append(specs, s)
+		s = encSpec(fmt.Sprintf("enc j3 3blk+tail fault T1 stream#1, waiters %v past their spin budget", ws), 3, 3, 100, -1, mode, -1)
+		s.FaultThread, s.FaultSite, s.FaultNth = 1, "stream", 1
+		s.StallThreads, s.StallPolls = ws, budget
+		specs = append(specs, s)
+	}
 	return specs
 }
 
 func init() {
 	register("C07", "model_checking", func(c *Ctx) {
-		c.Rule("controlled-scheduler DFS over the real encoder and decoder tasks (jobs 2 and 3, two or three batches; jobs 4 one batch): every interleaving x every fault placement (task t in every batch x {compute phase, 1st/2nd/3rd shared-stream operation, failures raised as error values and as plain strings}; a task that waits 2^27 polls for a predecessor that is merely slow; the calling goroutine's own stream operations; payload damage = failure after the hand-off; end of stream at every position; skipped blocks). Oracles on every execution: exclusive use of the shared stream, increasing block order, no deadlock / livelock (all tasks finish, the call returns), no task starts using the stream after a cancel was signalled, the call during which a task failed returns an error, no panic escapes. states/transitions = abstract protocol states (atomic values, pending op per thread, WaitGroup count, holder) and steps seen")
+		c.Rule("controlled-scheduler DFS over the real encoder and decoder tasks (jobs 2 and 3, two or three batches; jobs 4 one batch): every interleaving x every fault placement (task t in every batch x {compute phase, 1st/2nd/3rd shared-stream operation, failures raised as error values and as plain strings}; a task that waits 2^27 polls for a predecessor that is merely slow; waiters that have used up a spin budget of 2^13 (2^16) polls combined with all interleavings of the others (spin-then-park designs); the calling goroutine's own stream operations; payload damage = failure after the hand-off; end of stream at every position; skipped blocks). Oracles on every execution: exclusive use of the shared stream, increasing block order, no deadlock / livelock (all tasks finish, the call returns), no task starts using the stream after a cancel was signalled, the call during which a task failed returns an error, no panic escapes. states/transitions = abstract protocol states (atomic values, pending op per thread, WaitGroup count, holder) and steps seen")
 		c.Assume("Go atomics are sequentially consistent; a failing sink/source surfaces as a panic inside the bitstream operation (that is what Default{Output,Input}BitStream do), which is what the monitored stream injects")
 		var specs []e1Spec
 		// fault-free protocol runs
@@ -107,7 +124,11 @@ func init() {
 		for _, jobs := range []uint{2, 3} {
 			nb := int(jobs) + 1
 			for j := 1; j <= nb+1; j++ {
-				s := decSpec(fmt.Sprintf("dec j%d %dblk+tail block %d fails after hand-off", jobs, nb, j), jobs, nb, 100, "sleep", -1)
+				mode := "sleep"
+				if jobs == 3 && j >= 4 && !c.Thorough() {
+					mode = "cache" // ~2*10^5 executions with sleep sets: too close to the quick deadline on a loaded machine
+				}
+				s := decSpec(fmt.Sprintf("dec j%d %dblk+tail block %d fails after hand-off", jobs, nb, j), jobs, nb, 100, mode, -1)
 				s.CorruptBlock, s.CorruptKind = j, "payload"
 				specs = append(specs, s)
 			}
